@@ -256,10 +256,28 @@ func doReplay(path string) int {
 			hit = true
 		}
 	}
+	if !hit && rp.Rule == "C15/race" {
+		// ThreadSanitizer keeps a bounded, pseudo-randomly evicted access history per memory cell, so a
+		// given racing pair is not reported on every run of the same schedule: repeat the schedule.
+		for i := 0; i < 40 && !hit; i++ {
+			s := mc.Replay(in.Root, rp.Choices, in.MaxSteps)
+			addRaces(s)
+			if !reflect.DeepEqual(s.Log, s1.Log) {
+				fmt.Println("NONDETERMINISTIC: replays of the same schedule produced different logs")
+				return 3
+			}
+			for _, v := range s.Viol {
+				if v.Rule == rp.Rule && v.Key == rp.Key {
+					hit = true
+					fmt.Printf("VIOLATION-OBSERVED %s [%s] (repetition %d of the schedule): %s\n", v.Rule, v.Key, i+3, v.Msg)
+				}
+			}
+		}
+	}
 	if !hit {
 		fmt.Println("NOT REPRODUCED: the schedule no longer violates", rp.Rule)
 		return 0
 	}
-	fmt.Println("REPRODUCED (2 identical replays)")
+	fmt.Println("REPRODUCED (identical replays)")
 	return 1
 }
